@@ -250,6 +250,8 @@ type c10Obs struct {
 	Spills     int      // spill files created during the case
 	Panic      string
 	CloseErr   bool
+	Peeks      int    // partial reads through the body reader between two writes
+	PeekBad    string // a partial read that did not return a prefix of the body
 }
 
 func c10Short(b []byte) string {
@@ -363,6 +365,25 @@ func c10ExecTx(waf coraza.WAF, cfg *c10Cfg, body []byte, sizes []int, kinds []by
 			if it != nil && cfg.Action == "Reject" {
 				break
 			}
+			// a connector may look at what is buffered so far between two writes (a partial read through the body
+			// reader): it must see a prefix of the body and must not disturb what the following writes store
+			if i+1 < len(sizes) && (i+len(sizes))%2 == 0 {
+				var prd io.Reader
+				var perr error
+				if req {
+					prd, perr = tx.RequestBodyReader()
+				} else {
+					prd, perr = tx.ResponseBodyReader()
+				}
+				if perr == nil {
+					peek := make([]byte, 1+(i+n)%3)
+					k, _ := prd.Read(peek)
+					o.Peeks++
+					if !bytes.HasPrefix(body, peek[:k]) {
+						o.PeekBad = fmt.Sprintf("after call %d a partial read returned %q, not a prefix of the body", i, peek[:k])
+					}
+				}
+			}
 		}
 		var it *types.Interruption
 		var err error
@@ -427,6 +448,9 @@ func c10JudgeTx(cfg *c10Cfg, body []byte, sizes []int, e *c10Exp, o *c10Obs) (cl
 	where := "memory"
 	if o.Spills > 0 {
 		where = "spilled"
+	}
+	if o.PeekBad != "" {
+		return pre + "partial-read-not-a-prefix:" + where, o.PeekBad
 	}
 	cum := 0
 	for i, c := range o.Calls {
